@@ -72,7 +72,7 @@ PROPS = {
                    'a quotient wide enough for its declared degree) and num_quotient_polys is that times num_challenges; eval_l_0_and_l_last returns '
                    '(x^n - 1)/(n(x - 1)) and (x^n - 1)/(n(gx - 1)), the filters of the first-row and last-row constraints; validate_proof_shape returns Ok only for proofs whose '
                    'quotient commitment AND quotient openings are present exactly when the STARK has quotient polynomials, in the declared number (the conditions whose absence were F8/F9), with '
-                   'trace/next openings of COLUMNS values and PUBLIC_INPUTS public inputs; Stark::fri_instance lists one oracle per commitment in the order the verifier lists the caps (trace, auxiliary iff lookups / CTLs, quotient iff there are quotient polynomials) and opens EVERY committed polynomial at zeta, the trace and auxiliary ones also at g*zeta, and the cross-table-lookup Z polynomials at 1. The rest of the STARK verifier and the prover '
+                   'trace/next openings of COLUMNS values and PUBLIC_INPUTS public inputs; Stark::fri_instance lists one oracle per commitment in the order the verifier lists the caps (trace, auxiliary iff lookups / CTLs, quotient iff there are quotient polynomials) and opens EVERY committed polynomial at zeta, the trace and auxiliary ones also at g*zeta, and the cross-table-lookup Z polynomials at 1; verify_stark_proof returns Ok only if the shape was validated and verify_stark_proof_with_challenges accepted under the challenges of a FRESH transcript derived with ignore_trace_cap = false and nothing supplied from outside (the derivation and the checks themselves are uninterpreted in that contract). The rest of the STARK verifier and the prover '
                    '(iterator pipelines) are covered by a bounded stand-in only.',
         level_note='Trusted: Verus+Z3; abstract ring for packed fields; lane-wise scalar multiplication uninterpreted. verify_stark_proof_with_challenges, '
                    'compute_quotient_polys, eval_vanishing_poly, get_challenges: bounded harness only (flat_map/chunks/Option plumbing outside the Verus subset): '
@@ -157,7 +157,7 @@ PROPS = {
         design_ref='DESIGN.md section 4 / C03',
         bounded=[('plonky2', ['c03_', 'c04_'])],
         vspecs=['contracts/C03/plonk_verifier.vspec', 'contracts/C03/plonk_fri_instance.vspec', 'contracts/C02/vanishing_poly.vspec', 'contracts/C05/fri_verifier.vspec', 'contracts/C18/fri_shape.vspec', 'contracts/C12/merkle_verify.vspec',
-                'contracts/C04/transcript.vspec', 'contracts/C04/challenger.vspec'],
+                'contracts/C04/transcript.vspec', 'contracts/C04/challenger.vspec', 'contracts/C16/compressed_verify.vspec'],
         level_text='Unbounded deductive proof (Verus/Z3) of the acceptance skeleton of the real verifier code: verify() returns Ok only if shape validation '
                    'pinned every vector length to the circuit, the vanishing identity held for EVERY challenge index on the proof\'s own openings, '
                    'challenges were derived from the public-input hash, the VERIFIER DATA\'s circuit digest and the common data, and the FRI opening '
@@ -168,7 +168,7 @@ PROPS = {
                    'EVERY polynomial of every commitment opened at zeta, the Z and all lookup polynomials also at g*zeta.',
         level_note='Trusted: Verus+Z3; algebra callees as uninterpreted functions (T10); get_challenges proved against the transcript specification (C04 units, same run); circuit data '
                    'satisfy common_ok. The step from "every element is read by a check or absorbed" to "every change is rejected" is the '
-                   'soundness/collision argument (outside the family). Compressed proofs (decompress path, HashMap code) not covered.',
+                   'soundness/collision argument (outside the family). Compressed proofs: only the skeleton of CompressedProofWithPublicInputs::verify is under contract (unit compressed_verify: public-input count, shape validation of the decompressed proof (the repair of F11a), the same verify_with_challenges); the decompress path itself (HashMap code, where the open finding F11 sits) is uninterpreted there and covered by the bounded lane only.',
         remainder=['compressed proofs: CompressedFriProof::decompress, get_inferred_elements (iterator/HashMap code outside the subset)',
                    'the soundness/collision-resistance argument over the checked conjunction'],
     ),
@@ -176,9 +176,9 @@ PROPS = {
         title='Proof compression is lossless and verification-equivalent',
         design_ref='DESIGN.md section 4 / C16',
         bounded=[('plonky2', ['c16_', 'c17_all'])],
-        vspecs=['contracts/C16/path_compression.vspec'],
+        vspecs=['contracts/C16/path_compression.vspec', 'contracts/C16/compressed_verify.vspec'],
         level_text='Unbounded deductive proof (Verus/Z3) that compress_merkle_proofs keeps every `known[..]` access in bounds for all index multisets and heights '
-                   'and returns, per input path, a SUBSEQUENCE of that path\'s siblings (nothing invented or reordered). Losslessness of the whole '
+                   'and returns, per input path, a SUBSEQUENCE of that path\'s siblings (nothing invented or reordered); and that CompressedProofWithPublicInputs::verify returns Ok only if the public-input count equals the circuit\'s, the DECOMPRESSED proof passed validate_proof_shape and verify_with_challenges accepted it under the challenges derived from the compressed form (unit compressed_verify; the decompression functions themselves are uninterpreted there). Losslessness of the whole '
                    'compress/decompress pair and verification equivalence (HashMap / iterator-of-iterators code) are covered by a bounded stand-in only.',
         level_note='Trusted: Verus+Z3; hashes opaque. decompress_merkle_proofs, FriProof::compress, CompressedFriProof::decompress, get_inferred_elements: '
                    'bounded harness only (8 arity schedules incl. non-uniform ones, cap heights 0..5, up to 500 queries, all index multisets of small trees).',
@@ -203,13 +203,13 @@ PROPS = {
         title='Verifiers and proof decoders fail cleanly on malformed input',
         design_ref='DESIGN.md section 4 / C18',
         bounded=[('plonky2', ['c03_c18_', 'c18_']), ('starky', ['c18_', 'c09_c18_'])],
-        vspecs=['contracts/C18/fri_shape.vspec', 'contracts/C18/stark_shape.vspec', 'contracts/C05/fri_verifier.vspec', 'contracts/C03/plonk_verifier.vspec', 'contracts/C12/merkle_verify.vspec', 'contracts/C15/util_log2.vspec'],
+        vspecs=['contracts/C18/fri_shape.vspec', 'contracts/C18/stark_shape.vspec', 'contracts/C05/fri_verifier.vspec', 'contracts/C03/plonk_verifier.vspec', 'contracts/C12/merkle_verify.vspec', 'contracts/C15/util_log2.vspec', 'contracts/C16/compressed_verify.vspec'],
         level_text='Unbounded deductive proof (Verus/Z3) that, with NO precondition on the proof value beyond its Rust type, FRI shape validation and the '
                    'FRI verifier reach no failing index, slice, subtraction, shift, unwrap or assertion: every such operation in the extracted '
                    'bodies is a discharged obligation, and shape validation is the only place allowed to establish length facts. The same for the STARK entry: validate_proof_shape / '
-                   'check_lookup_options / recover_degree_bits (starky) read the first Merkle path, subtract rate_bits and shift by cap_height only after establishing that this is safe (F3), for every proof value.',
+                   'check_lookup_options / recover_degree_bits (starky) read the first Merkle path, subtract rate_bits and shift by cap_height only after establishing that this is safe (F3), for every proof value; and verify_stark_proof returns Ok only after that validation, which it runs BEFORE deriving challenges from the proof (F7).',
         level_note='Trusted: Verus+Z3; parameters from the common data satisfy params_ok/instances_ok; unverified callees (T10) assumed panic-free under '
-                   'their stated preconditions. Byte decoders, compressed proofs and the STARK verifier after shape validation are covered by the bounded stand-in only '
+                   'their stated preconditions. Byte decoders, the decompression of compressed proofs (the open finding F5 is a panic there; unit compressed_verify treats those functions as uninterpreted and total, so it does NOT speak about their panics) and the STARK verifier after shape validation are covered by the bounded stand-in only '
                    '(c18_c17_decoders: truncations / bit flips / 0xff runs of encoded proofs and circuit data; c18_compressed_malformed: open finding F5; '
                    'c18_stark_malformed: 42 surgeries (incl. Some(empty vector) for every optional opening) x 3 configurations x trace sizes, and final-polynomial / cap / round surgeries on proofs made for the FRI parameters of a recursive verifier (verifier_circuit_fri_params = Some, degrees 30, 14, 10, 6); c03_c18_surgery_*: every proof component altered, truncated, extended under 3 configurations).',
         remainder=['verify_compressed / decompress (HashMap keyed by proof data)', 'byte decoders (util/serialization)', 'starky verifier after validate_proof_shape (get_challenges, verify_stark_proof_with_challenges: bounded harness only)'],
@@ -271,12 +271,14 @@ PROPS = {
         design_ref='DESIGN.md section 4 / C20',
         bounded=[('plonky2', ['c20_', 'c17_keccak'])],
         bounded_thorough=[('plonky2', ['t20_'])],
-        vspecs=['contracts/C20/cyclic_check.vspec'],
+        vspecs=['contracts/C20/cyclic_check.vspec', 'contracts/C20/dummy_proof.vspec'],
         level_text='Unbounded deductive proof (Verus/Z3) of the third sentence: check_cyclic_proof_verifier_data returns Ok IF AND ONLY IF the trailing '
                    '4 + 4*2^cap_height public inputs of the proof spell out exactly the given verifier data (circuit digest, then every cap entry, '
                    'element by element), for every cap height <= 32, every number of leading public inputs and every value; too few public inputs is a '
-                   'clean Err; VerifierOnlyCircuitData::from_slice index layout proved in bounds. The in-circuit parts (conditional selection, cyclic '
-                   'connection of verifier data, dummy circuits) are covered by a bounded stand-in only.',
+                   'clean Err; VerifierOnlyCircuitData::from_slice index layout proved in bounds. For the dummy branch: CircuitBuilder::dummy_proof_and_vk returns a proof target shaped by the INNER circuit\'s common data and a '
+                   'verifier-data target with the inner circuit\'s cap height (the repair of F13), and registers exactly one generator, which fills those returned targets with the dummy proof and the verifier data of the dummy circuit of the inner common data '
+                   '(unit dummy_proof; builder methods and dummy_circuit / dummy_proof uninterpreted). The in-circuit parts (conditional selection, cyclic '
+                   'connection of verifier data, the dummy circuit itself) are covered by a bounded stand-in only.',
         level_note='Trusted: Verus+Z3; derived PartialEq on MerkleCap/HashOut is element-wise (T11); core::array::from_fn unrolled for N = 4 (R11e); slice range '
                    'indexing and HashOut::from_partial contracts (T4). conditionally_verify_proof, select_*, conditionally_verify_cyclic_proof, '
                    'dummy_circuit/dummy_proof/cyclic_base_proof: CircuitBuilder code, bounded harness only (2 inner circuit shapes incl. lookups, condition as a witness bit and as a build-time '
